@@ -46,7 +46,8 @@ Inductive act :=
 | APut (k v : bytes) | ADel (k : bytes)
 | AGet1 (k : bytes) | AGet2
 | AScan1 (p : bytes) | AScan2
-| AF1 | AF2 | AC1 | AC2.
+| AF1 | AF2 | AC1 | AC2
+| AC1F. (* Compact fails with a storage read error: no change set, the compaction task ends with the error *)
 
 Inductive obs :=
 | ONone
@@ -126,6 +127,20 @@ Definition step (cfg : dbcfg) (st : db) (a : act) : option (db * obs) :=
           Some (mkDb (mts st) (msize st) (walb st) (apply_cs cs (lv st)) (seqn st) (fpend st) (ft st) (cpend st) CIter
                      (mcl st) (rd st), ONone)
       | _ => None
+      end
+  | AC1F =>
+      (* only a step that scans tables can fail, i.e. one for which Compact would have produced a change set; the cursor
+         minorCompactionLevel is advanced before the merge, the task returns the error and is over *)
+      let run n :=
+        let '(ocs, m) := compact table_size (d_comp cfg) (mcl st) (lv st) in
+        match ocs with
+        | Some _ => Some (mkDb (mts st) (msize st) (walb st) (lv st) (seqn st) (fpend st) (ft st) n CIdle m (rd st), OComp false)
+        | None => None
+        end in
+      match ct st, cpend st with
+      | CIdle, S n => run n
+      | CIter, n => run n
+      | _, _ => None
       end
   end.
 
